@@ -135,7 +135,7 @@ ntt_forward!(c10_ntt_n1, 1, 1, 1, false, 4);
 //@ harness: c10_ntt_n2
 //@ prop: C10
 //@ tier: quick
-//@ cost: 12
+//@ cost: 6
 //@ funcs: ntt::ntt, ntt::ntt_internal, ntt::bitrev
 //@ bounds: field GF(17); size 2; every input vector (17^2)
 //@ asserts: out[j] = sum_i inp[i] w^(ij)
@@ -144,7 +144,7 @@ ntt_forward!(c10_ntt_n2, 2, 2, 2, false, 4);
 //@ harness: c10_ntt_n4
 //@ prop: C10
 //@ tier: quick
-//@ cost: 54
+//@ cost: 26
 //@ funcs: ntt::ntt, ntt::ntt_internal, ntt::bitrev
 //@ bounds: field GF(17); size 4; every input vector (17^4); output slice longer than size (6)
 //@ asserts: out[j] = sum_i inp[i] w^(ij); entries beyond size untouched
@@ -153,7 +153,7 @@ ntt_forward!(c10_ntt_n4, 4, 4, 6, false, 7);
 //@ harness: c10_ntt_n4_short_input
 //@ prop: C10
 //@ tier: quick
-//@ cost: 23
+//@ cost: 10
 //@ funcs: ntt::ntt, ntt::ntt_internal
 //@ bounds: field GF(17); size 4 with a 3-element input (implicit zero padding); every input
 //@ asserts: out[j] = evaluation of the degree-2 polynomial at w^j
@@ -162,7 +162,7 @@ ntt_forward!(c10_ntt_n4_short_input, 4, 3, 4, false, 6);
 //@ harness: c10_ntt_set_s_n1
 //@ prop: C10
 //@ tier: quick
-//@ cost: 5
+//@ cost: 2
 //@ funcs: ntt::ntt_set_s
 //@ bounds: field GF(17); size 1; every input
 //@ asserts: out = evaluation at s*w^j, s the next-order root
@@ -171,7 +171,7 @@ ntt_forward!(c10_ntt_set_s_n1, 1, 1, 1, true, 4);
 //@ harness: c10_ntt_set_s_n2
 //@ prop: C10
 //@ tier: quick
-//@ cost: 15
+//@ cost: 6
 //@ funcs: ntt::ntt_set_s, ntt::ntt_internal
 //@ bounds: field GF(17); size 2; every input
 //@ asserts: out[j] = sum_i inp[i] (s w^j)^i with s = 4th root
@@ -180,7 +180,7 @@ ntt_forward!(c10_ntt_set_s_n2, 2, 2, 2, true, 4);
 //@ harness: c10_ntt_set_s_n4
 //@ prop: C10
 //@ tier: quick
-//@ cost: 43
+//@ cost: 36
 //@ funcs: ntt::ntt_set_s, ntt::ntt_internal
 //@ bounds: field GF(17); size 4; every input vector (17^4)
 //@ asserts: out[j] = sum_i inp[i] (s w^j)^i with s = 8th root
@@ -221,7 +221,7 @@ macro_rules! ntt_sparse {
 //@ harness: c10_ntt_sparse_n8
 //@ prop: C10
 //@ tier: quick
-//@ cost: 80
+//@ cost: 37
 //@ funcs: ntt::ntt, ntt::ntt_internal
 //@ bounds: field GF(17); size 8; inputs with <= 2 non-zero coefficients (positions and values symbolic)
 //@ asserts: out[j] = a w^(ia j) + b w^(ib j)
@@ -284,7 +284,7 @@ macro_rules! ntt_inverse {
 //@ harness: c10_ntt_inv_n1
 //@ prop: C10
 //@ tier: quick
-//@ cost: 11
+//@ cost: 8
 //@ funcs: ntt::ntt_inv, ntt::ntt_inv_finish
 //@ bounds: field GF(17); size 1; every input
 //@ asserts: inverse interpolates; forward(inverse(v)) = v
@@ -293,7 +293,7 @@ ntt_inverse!(c10_ntt_inv_n1, 1, 9);
 //@ harness: c10_ntt_inv_n2
 //@ prop: C10
 //@ tier: quick
-//@ cost: 22
+//@ cost: 13
 //@ funcs: ntt::ntt_inv, ntt::ntt_inv_finish, FieldOps::inv (GF(17))
 //@ bounds: field GF(17); size 2; every input
 //@ asserts: inverse interpolates; forward(inverse(v)) = v
@@ -302,7 +302,7 @@ ntt_inverse!(c10_ntt_inv_n2, 2, 9);
 //@ harness: c10_ntt_inv_n4
 //@ prop: C10
 //@ tier: quick
-//@ cost: 83
+//@ cost: 67
 //@ funcs: ntt::ntt_inv, ntt::ntt_inv_finish, ntt::ntt
 //@ bounds: field GF(17); size 4; every input vector (17^4)
 //@ asserts: inverse interpolates; forward(inverse(v)) = v
@@ -314,7 +314,7 @@ ntt_inverse!(c10_ntt_inv_n4, 4, 9);
 //@ harness: c10_ntt_errors_large
 //@ prop: C10
 //@ tier: quick
-//@ cost: 14
+//@ cost: 13
 //@ funcs: ntt::ntt, ntt::ntt_set_s, ntt::ntt_internal (size validation; generic code at F = Field8)
 //@ bounds: size: every usize > 4 (the refused region; the header-partitioned twin c10_ntt_errors_small covers 1..=4); 4-element slices; plain and shifted variant
 //@ asserts: refused with OutputTooSmall (SizeTooLarge tolerated only above 2^19)
@@ -359,7 +359,7 @@ macro_rules! ntt_errors_small {
 //@ harness: c10_ntt_errors_size3
 //@ prop: C10
 //@ tier: quick
-//@ cost: 5
+//@ cost: 2
 //@ funcs: ntt::ntt_internal
 //@ bounds: size 3 (not a power of two), 4-element slices, both variants, every input
 //@ asserts: SizeInvalid
@@ -368,7 +368,7 @@ ntt_errors_small!(c10_ntt_errors_size3, 3);
 //@ harness: c10_ntt_errors_size4
 //@ prop: C10
 //@ tier: quick
-//@ cost: 11
+//@ cost: 8
 //@ funcs: ntt::ntt_internal
 //@ bounds: size 4 = output length (boundary), both variants, every input
 //@ asserts: accepted
@@ -399,7 +399,7 @@ macro_rules! root_powers {
 //@ harness: c10_root_powers_n1
 //@ prop: C10
 //@ tier: quick
-//@ cost: 5
+//@ cost: 2
 //@ funcs: polynomial::nth_root_powers
 //@ bounds: field GF(17); n = 1
 //@ asserts: roots[i] = w_n^i for every i
@@ -408,7 +408,7 @@ root_powers!(c10_root_powers_n1, 1, 4);
 //@ harness: c10_root_powers_n2
 //@ prop: C10
 //@ tier: quick
-//@ cost: 5
+//@ cost: 2
 //@ funcs: polynomial::nth_root_powers
 //@ bounds: field GF(17); n = 2
 //@ asserts: roots[i] = w_n^i for every i
@@ -426,7 +426,7 @@ root_powers!(c10_root_powers_n4, 4, 6);
 //@ harness: c10_root_powers_n8
 //@ prop: C10
 //@ tier: quick
-//@ cost: 8
+//@ cost: 4
 //@ funcs: polynomial::nth_root_powers
 //@ bounds: field GF(17); n = 8
 //@ asserts: roots[i] = w_n^i for every i
@@ -435,7 +435,7 @@ root_powers!(c10_root_powers_n8, 8, 10);
 //@ harness: c10_root_powers_n16
 //@ prop: C10
 //@ tier: quick
-//@ cost: 14
+//@ cost: 6
 //@ funcs: polynomial::nth_root_powers
 //@ bounds: field GF(17); n = 16 (the whole multiplicative group)
 //@ asserts: roots[i] = w_n^i for every i
@@ -479,7 +479,7 @@ macro_rules! lagrange_eval {
 //@ harness: c10_lagrange_eval_n1
 //@ prop: C10
 //@ tier: quick
-//@ cost: 15
+//@ cost: 13
 //@ funcs: polynomial::poly_eval_lagrange_batched, nth_root_powers, inv_pow2
 //@ bounds: field GF(17); 1 value, every value and every evaluation point
 //@ asserts: equals naive Lagrange interpolation + evaluation
@@ -488,7 +488,7 @@ lagrange_eval!(c10_lagrange_eval_n1, 1, false, 4);
 //@ harness: c10_lagrange_eval_n2
 //@ prop: C10
 //@ tier: quick
-//@ cost: 29
+//@ cost: 27
 //@ funcs: polynomial::poly_eval_lagrange_batched, nth_root_powers, inv_pow2
 //@ bounds: field GF(17); 2 values; every value vector and every evaluation point incl. the nodes
 //@ asserts: equals naive Lagrange interpolation + evaluation
@@ -497,7 +497,7 @@ lagrange_eval!(c10_lagrange_eval_n2, 2, false, 5);
 //@ harness: c10_lagrange_eval_n4_sparse
 //@ prop: C10
 //@ tier: quick
-//@ cost: 125
+//@ cost: 94
 //@ funcs: polynomial::poly_eval_lagrange_batched, nth_root_powers, inv_pow2
 //@ bounds: field GF(17); 4 values of which <= 2 non-zero (positions, values symbolic); every evaluation point incl. the nodes
 //@ asserts: equals naive Lagrange interpolation + evaluation
@@ -516,7 +516,7 @@ lagrange_eval!(c10_lagrange_eval_n4_full, 4, false, 7);
 //@ harness: c10_lagrange_eval_batched2
 //@ prop: C10
 //@ tier: quick
-//@ cost: 44
+//@ cost: 34
 //@ funcs: polynomial::poly_eval_lagrange_batched (two polynomials, second shorter than the domain)
 //@ bounds: field GF(17); two length-2 polynomials, every value, every point
 //@ asserts: each output equals the interpolation of its own polynomial
@@ -569,7 +569,7 @@ macro_rules! extend_values {
 //@ harness: c10_extend_2_1
 //@ prop: C10
 //@ tier: quick
-//@ cost: 38
+//@ cost: 20
 //@ funcs: polynomial::extend_values_to_power_of_2
 //@ bounds: field GF(17); desired 2, 1 given value; every value
 //@ asserts: given values kept; appended value = interpolation through the given ones
@@ -578,7 +578,7 @@ extend_values!(c10_extend_2_1, 2, 1, 9);
 //@ harness: c10_extend_4_1
 //@ prop: C10
 //@ tier: quick
-//@ cost: 130
+//@ cost: 79
 //@ funcs: polynomial::extend_values_to_power_of_2
 //@ bounds: field GF(17); desired 4, 1 given value
 //@ asserts: given values kept; appended values = interpolation
@@ -587,7 +587,7 @@ extend_values!(c10_extend_4_1, 4, 1, 9);
 //@ harness: c10_extend_4_2
 //@ prop: C10
 //@ tier: quick
-//@ cost: 174
+//@ cost: 88
 //@ funcs: polynomial::extend_values_to_power_of_2
 //@ bounds: field GF(17); desired 4, 2 given values; every value pair
 //@ asserts: given values kept; appended values = interpolation
@@ -596,7 +596,7 @@ extend_values!(c10_extend_4_2, 4, 2, 9);
 //@ harness: c10_extend_4_3
 //@ prop: C10
 //@ tier: quick
-//@ cost: 155
+//@ cost: 80
 //@ funcs: polynomial::extend_values_to_power_of_2
 //@ bounds: field GF(17); desired 4, 3 given values; every value triple
 //@ asserts: given values kept; appended value = interpolation
@@ -605,7 +605,7 @@ extend_values!(c10_extend_4_3, 4, 3, 9);
 //@ harness: c10_extend_4_4
 //@ prop: C10
 //@ tier: quick
-//@ cost: 20
+//@ cost: 12
 //@ funcs: polynomial::extend_values_to_power_of_2
 //@ bounds: field GF(17); desired 4, 4 given values (nothing to append)
 //@ asserts: values unchanged
@@ -676,7 +676,7 @@ macro_rules! double_evals {
 //@ harness: c10_double_1_2
 //@ prop: C10
 //@ tier: quick
-//@ cost: 18
+//@ cost: 13
 //@ funcs: polynomial::double_evaluations, ntt_inv, ntt_set_s
 //@ bounds: field GF(17); 1 -> 2 evaluations; every value
 //@ asserts: output = interpolate the n values, evaluate at the 2n-th roots
@@ -685,7 +685,7 @@ double_evals!(c10_double_1_2, 1, false, 9);
 //@ harness: c10_double_2_4
 //@ prop: C10
 //@ tier: quick
-//@ cost: 72
+//@ cost: 25
 //@ funcs: polynomial::double_evaluations, ntt_inv, ntt_set_s
 //@ bounds: field GF(17); 2 -> 4 evaluations; every value pair
 //@ asserts: output = interpolate, evaluate at the 4th roots
@@ -694,7 +694,7 @@ double_evals!(c10_double_2_4, 2, false, 9);
 //@ harness: c10_double_4_8_sparse
 //@ prop: C10
 //@ tier: quick
-//@ cost: 168
+//@ cost: 101
 //@ funcs: polynomial::double_evaluations, ntt_inv, ntt_set_s
 //@ bounds: field GF(17); 4 -> 8 evaluations; <= 2 non-zero inputs (positions and values symbolic)
 //@ asserts: output = interpolate, evaluate at the 8th roots
@@ -733,7 +733,7 @@ pub fn c10_double_errors() {
 //@ harness: c10_poly_mul_lagrange_n1
 //@ prop: C10
 //@ tier: quick
-//@ cost: 33
+//@ cost: 17
 //@ funcs: polynomial::poly_mul_lagrange, double_evaluations
 //@ bounds: field GF(17); length-1 operands; every value
 //@ asserts: output evaluations = product polynomial evaluated at the 2n-th roots
@@ -753,7 +753,7 @@ pub fn c10_poly_mul_lagrange_n1() {
 //@ harness: c10_poly_mul_lagrange_n2
 //@ prop: C10
 //@ tier: quick
-//@ cost: 227
+//@ cost: 122
 //@ funcs: polynomial::poly_mul_lagrange, double_evaluations, get_double_evaluations
 //@ bounds: field GF(17); length-2 operands; every pair of value vectors (17^4)
 //@ asserts: out[k] = p(w4^k) * q(w4^k) where p, q interpolate the operands on {1,-1}
@@ -777,7 +777,7 @@ pub fn c10_poly_mul_lagrange_n2() {
 //@ harness: c10_poly_eval_monomial
 //@ prop: C10
 //@ tier: quick
-//@ cost: 19
+//@ cost: 13
 //@ funcs: polynomial::poly_eval_monomial
 //@ bounds: field GF(17); coefficient vectors of length 0..=4 (length symbolic), every coefficient and point
 //@ asserts: equals direct Horner evaluation; empty polynomial evaluates to 0
@@ -798,7 +798,7 @@ pub fn c10_poly_eval_monomial() {
 //@ harness: c10_poly_interpret_eval_n4
 //@ prop: C10
 //@ tier: quick
-//@ cost: 117
+//@ cost: 64
 //@ funcs: polynomial::poly_interpret_eval, ntt, ntt_inv_finish, poly_eval_monomial
 //@ bounds: field GF(17); 4 points of which <= 2 non-zero; every evaluation point
 //@ asserts: equals naive interpolation + evaluation
